@@ -34,10 +34,11 @@ Fixpoint wrap_to_edge (periodic : list bool) (nx ix : list Z) : list Z * list Z 
 Section Ops.
   Context {T : Type} (O : NumOps T).
 
-  (* value_to_bin_scalar_bound : floor, `%= nx` in periodic dimensions (C++ %: sign of the dividend), then clamped *)
+  (* value_to_bin_scalar_bound : floor; in periodic dimensions `%= nx` and `+= nx` when negative (the wrapped bin;
+     before the repair the negative remainder was clamped to 0); then clamped *)
   Definition value_to_bin_bound (periodic : bool) (lower w : T) (n : Z) (x : T) : Z :=
     let i := value_to_bin O lower w x in
-    let i := if periodic then Z.rem i n else i in
+    let i := if periodic then (let r := Z.rem i n in if r <? 0 then r + n else r) else i in
     if i <? 0 then 0 else if i >=? n then n - 1 else i.
   Fixpoint bins_bound (periodic : list bool) (lower w : list T) (nx : list Z) (x : list T) : list Z :=
     match periodic, lower, w, nx, x with
